@@ -121,13 +121,13 @@ def _parse_atom_attributes(
     }
 
     optional_attrs = {
-        CHG: [int(i.split("=")[1]) for i in line if "CHG" in i],
+        CHG: [int(i.split("=")[1]) for i in line if i.startswith("CHG=")],
         MASS: (
-            [int(i.split("=")[1]) for i in line if "MASS" in i]
+            [int(i.split("=")[1]) for i in line if i.startswith("MASS=")]
             if not isotope_mass
             else [isotope_mass]
         ),
-        RAD: [int(i.split("=")[1]) for i in line if "RAD" in i],
+        RAD: [int(i.split("=")[1]) for i in line if i.startswith("RAD=")],
     }
     for key, val in optional_attrs.items():
         # Explicitly written default values (CHG=0, RAD=0, MASS=0) mean the
